@@ -319,18 +319,20 @@ func (c *compiler) compileType(y *Type, parent Leafable, isUnion bool) error {
 
 	if y.format == val.FmtEnum || y.format == val.FmtEnumList {
 		y.enum = make(val.EnumList, len(y.enums))
+		// RFC7950 Sec 9.6.4.2: without a value statement the first enum is 0, any other
+		// one greater than the highest value so far
 		nextId := 0
 		for i, item := range y.enums {
-			if item.val > 0 {
-				nextId = item.val
-			} else {
+			if !item.valSet {
 				item.val = nextId
 			}
 			y.enum[i] = val.Enum{
-				Id:    nextId,
+				Id:    item.val,
 				Label: item.ident,
 			}
-			nextId++
+			if i == 0 || item.val >= nextId {
+				nextId = item.val + 1
+			}
 		}
 	}
 
